@@ -411,6 +411,17 @@ def run(ctx):
         ctx.guard(check_roundtrip, ctx, recipes, order, indent, pieces, witness={"deps": recipes, "order": order, "indent": indent, "pieces": pieces})
         ctx.case((recipes, order, indent, pieces), nontrivial=any(hot(r) for r in recipes))
         ctx.state("copies_x_distinct", (len(order), len(set(order))))
+    # sizes ordinary pages never reach: 70 dependencies serialised 200 times in a text of a few hundred thousand characters
+    if ctx.shard == 0:
+        for j in range(2):
+            big = [rand_dep_recipe(rng, k) for k in range(70)]
+            big_order = [rng.randrange(70) for _ in range(200)]
+            big_pieces = ["<p>%d %s</p>" % (k, "filler & text " * rng.choice([0, 3, 400])) for k in range(201)]
+            if j:
+                big_pieces[100] += PLACEHOLDER
+            ctx.guard(check_roundtrip, ctx, big, big_order, [rng.choice([None, 0, 2]) for _ in big], big_pieces, witness={"what": "70 dependencies, 200 serialised copies"})
+            ctx.case(("big-roundtrip", j), nontrivial=True)
+            ctx.count("very_large_texts")
     for _ in range(ctx.budget(300, 20000)):
         n = rng.randint(0, 4)
         recipes = [rand_dep_recipe(rng, k, benign_head=True) for k in range(n)]
